@@ -23,6 +23,7 @@ LEVEL = "exploration"
 TECHNIQUE = "deterministic simulation across interpreter processes with simulator-chosen PYTHONHASHSEED and differing pre-histories (S-PROC) + archive save/load through the storage seam; cross-process log agreement + count model"
 RUNS = {"quick": 2, "thorough": 2}  # pre-histories per hash-seed slot
 HASHSEED_SLOTS = {"quick": 3, "thorough": 6}
+OPTIMIZE_SLOTS = {"quick": [2], "thorough": [2, 5]}  # hash-seed slots whose interpreter runs under `python -O` (asserts stripped)
 N_SERVERS = {"quick": 8, "thorough": 12}
 SAMPLE = {"quick": 1500, "thorough": 6000}
 JOB_TIMEOUT = 3000.0
